@@ -77,15 +77,18 @@ type Ctl struct {
 	// Digest returns a fingerprint string of the visible state (only measured, never used for pruning).
 	Digest func() string
 
-	Fps        []uint64
-	EngineErr  string
-	Panics     []string
-	Stuck      bool
-	StepLimit  bool
-	MaxSteps   int
-	Horizon    time.Duration
-	MaxEnabled int
-	dead       bool
+	Fps       []uint64
+	EngineErr string
+	Panics    []string
+	Stuck     bool
+	StepLimit bool
+	// StepLimitOutcome: the rig judges an execution that reached the step limit itself (a system that keeps
+	// itself busy for ever instead of ending is a verdict for rigs with a progress clause, not an engine error)
+	StepLimitOutcome bool
+	MaxSteps         int
+	Horizon          time.Duration
+	MaxEnabled       int
+	dead             bool
 
 	// HaltAfterPrefix (explicit-state search): stop at the first decision point after the prefix,
 	// recording the enabled entries as Frontier instead of choosing one.
